@@ -243,6 +243,26 @@ func genAstShape() string {
 	ef := parseFile("expr.go")
 	cf := funcDecl(ef, "", "Compile")
 	fmt.Fprintf(&sb, "/-- expr.Compile: every call x.F(…) in source order -/\ndef compileCalls : List String := %s\n\n", leanStrList(callSequence(cf.Body)))
+	// the guard structure around the rewriting stages: the top-level statements of Compile from the first
+	// checker.Check up to (excluding) `if config.Optimize`
+	first, patchAt, optAt := -1, -1, -1
+	for i, st := range cf.Body.List {
+		t := norm(st)
+		switch {
+		case first < 0 && t == "_, err = checker.Check(tree, config)":
+			first = i
+		case t == "compiler.PatchOperators(&tree.Node, config)":
+			patchAt = i
+		}
+		if is, ok := st.(*ast.IfStmt); ok && is.Init == nil && norm(is.Cond) == "config.Optimize" {
+			optAt = i
+		}
+	}
+	if first < 0 || patchAt < first || optAt < patchAt {
+		refuse(cf.Pos(), "expr.Compile: cannot find `_, err = checker.Check(tree, config)` … `compiler.PatchOperators(&tree.Node, config)` … `if config.Optimize` in this order at top level (%d, %d, %d)", first, patchAt, optAt)
+	}
+	fmt.Fprintf(&sb, "/-- expr.Compile: top-level statements from the first type check up to PatchOperators (inclusive) -/\ndef compileCheckBlock : List String := %s\n\n", leanStrList(stmtStrings(&ast.BlockStmt{List: cf.Body.List[first : patchAt+1]})))
+	fmt.Fprintf(&sb, "/-- expr.Compile: top-level statements between PatchOperators and `if config.Optimize` -/\ndef compilePatchBlock : List String := %s\n\n", leanStrList(stmtStrings(&ast.BlockStmt{List: cf.Body.List[patchAt+1 : optAt]})))
 	pf := funcDecl(ef, "", "Patch")
 	fmt.Fprintf(&sb, "/-- expr.Patch(visitor) -/\ndef exprPatchBody : List String := %s\n\n", leanStrList(stmtStrings(pf.Body)))
 	of := funcDecl(ef, "", "Operator")
